@@ -139,6 +139,9 @@ func runC06(c c06case) (string, string) {
 	vLastIdx, vLastTerm := uint64(len(lt)), lt[len(lt)-1]
 	for mi, m := range c.Msgs {
 		term := uint64(int(c.Term) + m.TermOff)
+		if m.Kind == "elect" {
+			term = lastTermSeen + 1 // the term the server will stand for
+		}
 		if term == 0 {
 			continue
 		}
@@ -193,6 +196,10 @@ func runC06(c c06case) (string, string) {
 					panic(v)
 				}
 			}()
+			if m.Kind == "elect" {
+				r.VerifElectSelf()
+				return
+			}
 			respI, _ = r.VerifProcessRPC(cmd)
 		}()
 		if crashed {
@@ -203,6 +210,15 @@ func runC06(c c06case) (string, string) {
 				return ":term-decreased-after-restart", fmt.Sprintf("after a crash during message %d the restarted server reports term %d, it had reported %d", mi, t, lastTermSeen)
 			}
 			continue
+		}
+		if m.Kind == "elect" {
+			// the server voted for itself in the term it now reports (only a voter of its own configuration does)
+			if t := r.CurrentTerm(); t > lastTermSeen && string(vs.kv["LastVoteCand"]) == "n0" && vs.kvU["LastVoteTerm"] == t {
+				if prev, dup := grants[t]; dup && prev != "n0" {
+					return ":two-grants-one-term", fmt.Sprintf("message %d: the server votes for itself in term %d, but that term's vote had gone to %s", mi, t, prev)
+				}
+				grants[t] = "n0"
+			}
 		}
 		switch resp := respI.(type) {
 		case *raft.RequestVoteResponse:
@@ -285,6 +301,8 @@ func c06messages() []c06msg {
 			out = append(out, c06msg{Kind: "ae", TermOff: off, Cand: ld})
 		}
 	}
+	// the server's own election timeout: it stands for election itself
+	out = append(out, c06msg{Kind: "elect", Cand: "n0"})
 	return out
 }
 
